@@ -3054,11 +3054,28 @@ DLLEXPORT int tj3Transform(tjhandle handle, const unsigned char *jpegBuf,
     cinfo->restart_interval = this->restartIntervalBlocks;
     cinfo->restart_in_rows = this->restartIntervalRows;
     if (!(t[i].options & TJXOPT_NOOUTPUT)) {
+      JCOPY_OPTION copyOption = t[i].options & TJXOPT_COPYNONE ?
+                                JCOPYOPT_NONE :
+                                (JCOPY_OPTION)this->saveMarkers;
+      boolean iccCopied = FALSE;
+
       jpeg_write_coefficients(cinfo, dstcoefs);
-      jcopy_markers_execute(dinfo, cinfo, t[i].options & TJXOPT_COPYNONE ?
-                                          JCOPYOPT_NONE :
-                                          (JCOPY_OPTION)this->saveMarkers);
-      if (this->iccBuf != NULL && this->iccSize != 0)
+      jcopy_markers_execute(dinfo, cinfo, copyOption);
+      /* An ICC profile copied from the source image overrides the ICC profile
+         associated with the instance (refer to TJPARAM_SAVEMARKERS.)  Writing
+         both would produce a JPEG image with two ICC profiles, which cannot
+         be read back. */
+      if (copyOption == JCOPYOPT_ALL || copyOption == JCOPYOPT_ICC) {
+        jpeg_saved_marker_ptr marker;
+
+        for (marker = dinfo->marker_list; marker != NULL;
+             marker = marker->next) {
+          if (marker->marker == JPEG_APP0 + 2 && marker->data_length >= 12 &&
+              !memcmp(marker->data, "ICC_PROFILE\0", 12))
+            iccCopied = TRUE;
+        }
+      }
+      if (this->iccBuf != NULL && this->iccSize != 0 && !iccCopied)
         jpeg_write_icc_profile(cinfo, this->iccBuf,
                                (unsigned int)this->iccSize);
     } else
